@@ -13,7 +13,7 @@ import (
 )
 
 // callees assumed to have no effect on modelled memory / ghost state and not to panic
-var pureCallee = regexp.MustCompile(`^(fmt\.|errors\.|strings\.|strconv\.|\*?types\.(New)?Err|types\.newError|\*?types\.sdkError\.|types\.Err[A-Z]|x/[a-z]+/types\.Err[A-Z]|x/[a-z]+/types\.Codespace|\*?github\.com/tendermint/tendermint/libs/log\.|\*?github\.com/tendermint/tendermint/libs/common\.|\*?github\.com/pkg/errors\.|types\.NewEvent|types\.NewAttribute|\*?types\.EventManager\.|types\.Events\.|types\.Event\.|log\.|os\.Exit|time\.Now|\*?bytes\.Buffer\.)`)
+var pureCallee = regexp.MustCompile(`(\.String$|\.Error$|\.Logger$|\.EventManager$|\.GoString$|POSHooks\.|\.Codespace$|\.WithEventManager$|\.Events$)|^(fmt\.|errors\.|strings\.|strconv\.|\*?types\.(New)?Err|types\.newError|\*?types\.sdkError\.|types\.Err[A-Z]|x/[a-z]+/types\.Err[A-Z]|x/[a-z]+/types\.Codespace|\*?github\.com/tendermint/tendermint/libs/log\.|\*?github\.com/tendermint/tendermint/libs/common\.|\*?github\.com/pkg/errors\.|types\.NewEvent|types\.NewAttribute|\*?types\.EventManager\.|types\.Events\.|types\.Event\.|log\.|os\.Exit|time\.Now|\*?bytes\.Buffer\.)`)
 
 func (fr *frame) calleeKey(c *ssa.CallCommon) (string, *ssa.Function) {
 	if c.IsInvoke() {
@@ -48,10 +48,11 @@ func (fr *frame) doCall(c *ssa.CallCommon, args []SV, cur *State, instr *ssa.Cal
 	// devirtualise: the receiver was boxed from a known concrete type in this very function
 	if c.IsInvoke() && len(args) > 0 && args[0].dyn != nil && args[0].dyn.typ != nil {
 		if m := vc.eng.prog.LookupMethod(args[0].dyn.typ, c.Method.Pkg(), c.Method.Name()); m != nil && m.Synthetic == "" {
+			fr.safe("nilrecv", not(eq(app("i_type", args[0].t), "0")))
 			callee = m
 			key = funcKey(m)
 			args = append([]SV{*args[0].dyn}, args[1:]...)
-			if con := vc.eng.contracts[key]; con != nil {
+			if con := vc.contractFor(key); con != nil {
 				return fr.applyContract(con, key, args, cur, rtyp)
 			}
 			inRepo := m.Pkg != nil && strings.HasPrefix(m.Pkg.Pkg.Path(), repoMod)
@@ -69,7 +70,7 @@ func (fr *frame) doCall(c *ssa.CallCommon, args []SV, cur *State, instr *ssa.Cal
 		}
 		return fr.opaque("func-value", c, args, cur, rtyp, false)
 	}
-	if con := vc.eng.contracts[key]; con != nil {
+	if con := vc.contractFor(key); con != nil {
 		isSelf := callee != nil && callee == vc.fn && fr.top
 		_ = isSelf
 		return fr.applyContract(con, key, args, cur, rtyp)
@@ -185,6 +186,11 @@ func (fr *frame) inline(callee *ssa.Function, args []SV, bnd []SV, cur *State, r
 				t = ite(sub.rets[j].guard, vc.conv(sub.rets[j].vals[i], rt), t)
 			}
 			res = SV{t: vc.nameTerm("ret", t, vc.sortOf(rt)), typ: rt}
+			var cands []SV
+			for _, r := range sub.rets {
+				cands = append(cands, r.vals[i])
+			}
+			res.dyn = vc.mergeDyn(res, cands)
 		}
 		vals = append(vals, res)
 	}
@@ -236,10 +242,16 @@ func (fr *frame) opaque(key string, c *ssa.CallCommon, args []SV, cur *State, rt
 	for _, rt := range resultTypes(rtyp) {
 		r := vc.fresh("res", vc.sortOf(rt))
 		vc.assume(vc.typeFacts(r, rt, na, 0))
+		if errCtor.MatchString(key) && vc.sortOf(rt) == "Iface" {
+			vc.assume(not(eq(app("i_type", r), "0"))) // error constructors return non-nil errors
+			vc.assumes["error constructors return a non-nil error: "+key] = true
+		}
 		vals = append(vals, SV{t: r, typ: rt})
 	}
 	return tupleOrSingle(rtyp, vals)
 }
+
+var errCtor = regexp.MustCompile(`(^|[./])(Err[A-Z]\w*|NewError\w*|newError\w*|AppendMsgToErr)$`)
 
 func (fr *frame) havocReferent(a SV, cur *State) {
 	vc := fr.vc
@@ -290,6 +302,9 @@ func (vc *VC) bindContract(con *Contract, args []SV, key string) map[string]SV {
 }
 
 func (vc *VC) pkgOf(con *Contract) *types.Package {
+	if con.SamePkg != "" {
+		return vc.eng.typesPkg[con.SamePkg]
+	}
 	return vc.eng.typesPkg[con.Pkg]
 }
 
@@ -316,7 +331,7 @@ func (fr *frame) applyContract(con *Contract, key string, args []SV, cur *State,
 			vc.oblige("pre", fmt.Sprintf("%s.pre%d", tag, i), fr.g, vc.evalGoal(cl.Expr, env))
 		}
 	}
-	for _, inv := range vc.eng.invariantsOf(con) {
+	for _, inv := range vc.invariantsOf(con) {
 		ienv := *env
 		ienv.pkg = vc.eng.typesPkg[inv.Pkg]
 		vc.oblige("pre", fmt.Sprintf("%s.inv.%s", tag, inv.Name), fr.g, vc.evalGoal(inv.Expr, &ienv))
@@ -375,7 +390,7 @@ func (fr *frame) applyContract(con *Contract, key string, args []SV, cur *State,
 			vc.assume(implies(fr.g, vc.evalHyp(cl.Expr, post, fr.g)))
 		}
 	}
-	for _, inv := range vc.eng.invariantsOf(con) {
+	for _, inv := range vc.invariantsOf(con) {
 		ienv := *post
 		ienv.pkg = vc.eng.typesPkg[inv.Pkg]
 		vc.assume(implies(fr.g, vc.evalHyp(inv.Expr, &ienv, fr.g)))
@@ -558,4 +573,43 @@ func sliceAcc(acc string, t T) T {
 		}
 	}
 	return app(acc, t)
+}
+
+// contractFor finds the contract of a callee: a mode-specific assumed contract wins.
+func (vc *VC) contractFor(key string) *Contract {
+	m := "@heap"
+	if vc.mode == ValueMode {
+		m = "@value"
+	}
+	if c := vc.eng.contracts[key+m]; c != nil {
+		return c
+	}
+	c := vc.eng.contracts[key]
+	if c != nil && c.ModeSet && (c.Extern || c.Assumed) && c.Mode != vc.mode {
+		return nil
+	}
+	return c
+}
+
+// mergeDyn: a merged interface value keeps its known dynamic type when every merged candidate is
+// either the nil interface or boxed from that same concrete type.
+func (vc *VC) mergeDyn(merged SV, cands []SV) *SV {
+	var dt types.Type
+	for _, c := range cands {
+		if c.dyn == nil {
+			if c.t == "(mk_iface 0 0)" {
+				continue
+			}
+			return nil
+		}
+		if dt == nil {
+			dt = c.dyn.typ
+		} else if !types.Identical(dt, c.dyn.typ) {
+			return nil
+		}
+	}
+	if dt == nil {
+		return nil
+	}
+	return &SV{t: vc.unbox(merged.t, dt), typ: dt}
 }
